@@ -350,11 +350,22 @@ pub fn inject(rng: &mut Rng, gs: &GSchema, env: &Env, w: &GWorld, class: &'stati
             None
         }
         "enum-bad-id:tag" => {
+            // an enum-typed position anywhere inside a tag value (directly, in a set, in a record)
             for u in &non_enum {
                 let et = gs.entity_type(&u.ty)?;
-                if let Some(GType::Ent(n)) = et.tags.as_ref().map(|t| gs.resolve(t).clone()) {
-                    if gs.entity_type(&n).map(|e| e.enum_ids.is_some()).unwrap_or(false) {
-                        nw.entities.get_mut(u).unwrap().tags.insert("k".into(), GValue::Ent(Uid::new(&n, "zz-not-a-choice")));
+                let tt = match &et.tags {
+                    Some(t) => t.clone(),
+                    None => continue,
+                };
+                // an existing tag value with an enum reference inside, or a fresh conformant one
+                let mut cands: Vec<(String, GValue)> = w.entities[u].tags.iter().map(|(k, v)| (k.clone(), v.clone())).collect();
+                let wg = WorldGen { schema: gs, pools: Default::default() };
+                for _ in 0..3 {
+                    cands.push(("k".to_string(), wg.value_of_type(rng, &tt, 2)));
+                }
+                for (k, v) in cands {
+                    if let Some(nv) = bad_enum_inside(gs, &v, &tt) {
+                        nw.entities.get_mut(u).unwrap().tags.insert(k, nv);
                         return fault(Side::Entities, nw, Some(u.clone()));
                     }
                 }
@@ -465,6 +476,16 @@ fn entity_entry_points(rng: &mut Rng, w: &GWorld, gs: &GSchema, schema: &Schema,
                 // the conformant remainder must load (unless the remainder depends on the victim, e.g. hierarchy checks): count only
                 out.push(("(remainder did not load)", true, bridge::err_chain(&e)));
             }
+        }
+    }
+    // the offending entity is already in a store that was built WITHOUT the schema; adding an identical copy
+    // WITH the schema must still be refused
+    if let Some(v) = victim {
+        if let (Ok(lax), Some(ve)) = (Entities::from_entities(list.clone(), None), list.iter().find(|e| bridge::uid_back(&e.uid()) == *v)) {
+            let r = lax.clone().add_entities(vec![ve.clone()], Some(schema));
+            out.push(("schema-less store + add_entities(identical copy)", r.is_ok(), r.err().map(|e| bridge::err_chain(&e)).unwrap_or_default()));
+            let r = lax.upsert_entities(vec![ve.clone()], Some(schema));
+            out.push(("schema-less store + upsert_entities(identical copy)", r.is_ok(), r.err().map(|e| bridge::err_chain(&e)).unwrap_or_default()));
         }
     }
     // single entity from JSON
